@@ -1,5 +1,6 @@
 import Falcon.Lemmas.FftExact
 import Falcon.Lemmas.CplxTable
+import Falcon.Lemmas.NttBreadthFirst
 
 /-!
 # C13 — the floating-point FFT layer: what the network computes in exact arithmetic, and the table
@@ -21,6 +22,27 @@ variable {F : Type} [CommRing F]
 /-- the executable floating-point transform *is* the generic network at the Complex64 operations -/
 theorem float_instance_is_the_generic_network (a : List C) :
     fft a = nttRecO cops FftFlt.T (log2 a.length) 1 a := rfl
+
+/-- **the loop nest of the Rust code is the network of the model**: the forward transform run breadth first — stage
+    after stage over the whole array, the stage with m blocks using twiddle `psi_rev[m + i]` for block i, as
+    cyclotomic_fourier.rs does — returns exactly what the depth-first network returns, for ANY scalar operations (no
+    algebraic law is used), hence for the floating-point instance bit for bit, for every d and every vector of length 2^d -/
+theorem breadth_first_loop_nest_is_the_network {α : Type} (o : Ops α) (T : Nat → α) (d : Nat) (a : List α)
+    (ha : a.length = 2 ^ d) : nttBF o T d a = nttRecO o T d 1 a :=
+  nttBF_eq_nttRecO o T d a ha
+
+/-- … in particular for the executable Complex64 transform -/
+theorem float_fft_is_the_breadth_first_loop_nest (d : Nat) (a : List C) (ha : a.length = 2 ^ d) :
+    fft a = nttBF cops FftFlt.T d a := by
+  rw [nttBF_eq_nttRecO cops FftFlt.T d a ha]
+  unfold fft
+  rw [ha]
+  congr 1
+  simp [log2, Nat.log2_two_pow]
+
+/-- non-vacuity: two stages on four symbols, written out (any operations) -/
+example (o : Ops Nat) (T : Nat → Nat) (a b c d : Nat) :
+    nttBF o T 2 [a, b, c, d] = nttRecO o T 2 1 [a, b, c, d] := nttBF_eq_nttRecO o T 2 _ rfl
 
 /-- ifft(fft a) = a in exact arithmetic -/
 theorem roundtrip_exact (T TI : Nat → F) (d : Nat) (ninv : F) (hn : (2 : F) ^ d * ninv = 1) (a : List F)
